@@ -368,8 +368,9 @@ async def sum(iterable: AnyIterable[Any], start: Any = 0) -> Any:
     Sum of ``start`` and all elements in the (async) iterable
     """
     total = start
-    async for item in aiter(iterable):
-        total = total + item
+    async with ScopedIter(iterable) as item_iter:
+        async for item in item_iter:
+            total = total + item
     return total
 
 
@@ -379,14 +380,16 @@ async def list(iterable: Union[Iterable[T], AsyncIterable[T]] = ()) -> List[T]:
 
     This is equivalent to ``[element async for element in iterable]``.
     """
-    return [element async for element in aiter(iterable)]
+    async with ScopedIter(iterable) as item_iter:
+        return [element async for element in item_iter]
 
 
 async def tuple(iterable: Union[Iterable[T], AsyncIterable[T]] = ()) -> Tuple[T, ...]:
     """
     Create a :py:class:`tuple` from an (async) iterable
     """
-    return (*[element async for element in aiter(iterable)],)
+    async with ScopedIter(iterable) as item_iter:
+        return (*[element async for element in item_iter],)
 
 
 async def dict(  # noqa: F811
@@ -401,7 +404,8 @@ async def dict(  # noqa: F811
     """
     if not iterable:
         return {**kwargs}
-    base_dict: Dict[Any, T] = {key: value async for key, value in aiter(iterable)}
+    async with ScopedIter(iterable) as item_iter:
+        base_dict: Dict[Any, T] = {key: value async for key, value in item_iter}
     if kwargs:
         base_dict.update(kwargs)
     return base_dict
@@ -413,7 +417,8 @@ async def set(iterable: Union[Iterable[T], AsyncIterable[T]] = ()) -> Set[T]:
 
     This is equivalent to ``{element async for element in iterable}``.
     """
-    return {element async for element in aiter(iterable)}
+    async with ScopedIter(iterable) as item_iter:
+        return {element async for element in item_iter}
 
 
 async def sorted(
